@@ -1,7 +1,65 @@
-(* Props/C04.v — placeholder until the round-trip proof lands. *)
-From TH Require Import Base.Bytes Http.Response Http.ClientSpec.
+(* Props/C04.v — every response is a well-formed, self-delimiting message with exactly the body.
+   Only statements. `parse_response` is the independent RFC 7230 client parser of ClientSpec.v. *)
+From TH Require Import Base.Bytes Http.Response Http.ClientSpec Http.ResponseFacts Http.C04Facts.
+Open Scope N_scope.
+
+(* For every well-formed response (status 100..999, token header names, values free of LF, length
+   declared correctly or not at all), either coding decision, every request version, HEAD or not,
+   and ANY bytes that follow on the connection: the client recovers the status and exactly the
+   body, knows where the message ends without waiting for the connection to close, and what follows
+   the message is exactly what followed it on the wire. *)
+Theorem c04_wellformed :
+  forall te0 date r ver head tail,
+    wf_response r -> nolf date = true -> In ver versions ->
+    exists p, parse_response head (raw_print_with te0 date r ver head None ++ tail) = Some p /\
+              p_status p = status r /\ p_body p = expected_body head r /\ p_rest p = tail /\
+              p_delim p <> UntilClose.
+Proof. exact roundtrip. Qed.
+Print Assumptions c04_wellformed.
+
+(* In answer to HEAD and with 1xx, 204, 304 the output is the head and nothing else. *)
+Theorem c04_no_body_bytes :
+  forall te0 date r ver head up,
+    head || no_body_status (status r) = true ->
+    raw_print_with te0 date r ver head up =
+    render_head ver (status r)
+      (final_headers date r up (match up with Some _ => None | None => Some te0 end)
+         (match data_length r, match up with Some _ => None | None => Some te0 end with
+          | Some l, _ => Some l
+          | None, Some Identity => Some (len (rbody r))
+          | None, _ => None
+          end)).
+Proof. exact no_body_bytes. Qed.
+Print Assumptions c04_no_body_bytes.
+
+(* the chunked coding of any body decodes to that body and stops exactly at its end,
+   for every chunk size c > 0 *)
+Theorem c04_chunked_roundtrip :
+  forall c, (0 < c)%nat -> N.of_nat c < USIZE_BOUND ->
+  forall d tail fuel, (List.length d < fuel)%nat ->
+    dechunk fuel (chunk_encode_c c d ++ tail) [] = Some (d, tail).
+Proof. exact dechunk_encode. Qed.
+Print Assumptions c04_chunked_roundtrip.
+
+(* the hypothesis wf_response is met by every response the application builds from well-formed
+   headers through the constructor, add_header/with_header and with_chunked_threshold *)
+Theorem c04_built_is_wf :
+  forall st hs b ops,
+    100 <= st <= 999 -> forallb wf_header hs = true -> forallb wf_rop ops = true ->
+    len b < USIZE_BOUND ->
+    forallb (fun o => match o with WithStatus _ | WithData _ _ => false | _ => true end) ops = true ->
+    forallb (fun h => negb (equiv "Content-Length" h)) hs = true ->
+    forallb (fun o => match o with WithHeader h => negb (equiv "Content-Length" h) | _ => true end) ops = true ->
+    forall dl, dl = None \/ dl = Some (len b) ->
+    wf_response (build (new_response st hs b dl) ops).
+Proof. exact built_wf. Qed.
+Print Assumptions c04_built_is_wf.
+
+(* non-vacuity: a concrete chunked response followed by further bytes *)
 Example c04_example :
-  option_map (fun p => (p_status p, p_body p, p_rest p))
-    (parse_response false (raw_print_with Chunked (s "D") (from_data (s "hello")) (1,1)%N false None ++ s "NEXT"))
-  = Some (200%N, s "hello", s "NEXT").
+  option_map (fun p => (p_status p, p_body p, p_rest p, p_delim p))
+    (parse_response false (raw_print_with Chunked (s "D") (from_data (s "hello")) (1,1) false None ++ s "NEXT"))
+  = Some (200, s "hello", s "NEXT", ByChunked).
 Proof. vm_compute. reflexivity. Qed.
+Example c04_example_wf : wf_response (from_data (s "hello")).
+Proof. unfold wf_response. repeat split; try (vm_compute; congruence). - repeat constructor. - now right. Qed.
